@@ -2,7 +2,7 @@
 # Apply the reverse patch of every repository fix (regress/reverts/<commit>.diff), one at a time, in a
 # scratch worktree of /repo HEAD and run the quick tier of the check the fix was recorded under.
 # usage: [VERIF_SEED=n] tools/revert_matrix.sh > /tmp/reverts.txt
-for c in 0561b74:C03 327964c:C06 beb5cd3:C06 bfce49a:C06 6b87c43:C05 4ea1ed0:C05 9041eb8:C11 c65da53:C15 2a053ef:C15 7137d85:C06 32398cf:C15 32398cf:C05 8b69bad:C15 ab33f81:C13 be60470:C15 987e884:C15 c3de485:C14 659c7d9:C05 7ecc7f2:C03 7ecc7f2:C10 f34129b:C10 a5abd59:C11 36d53b2:C11 4f73e3c:C15 4b1d141:C06 6d81a21:C15 9eaae08:C15 e8f6822:C15 cb7a60c:C13 71877e2:C13 93d1e9a:C11 25eedce:C06 44bf9a6:C11 ecbebbd:C03; do
+for c in 0561b74:C03 327964c:C06 beb5cd3:C06 bfce49a:C06 6b87c43:C05 4ea1ed0:C05 9041eb8:C11 c65da53:C15 2a053ef:C15 7137d85:C06 32398cf:C15 32398cf:C05 8b69bad:C15 ab33f81:C13 be60470:C15 987e884:C15 c3de485:C14 659c7d9:C05 7ecc7f2:C03 7ecc7f2:C10 f34129b:C10 a5abd59:C11 36d53b2:C11 4f73e3c:C15 4b1d141:C06 6d81a21:C15 9eaae08:C15 e8f6822:C15 cb7a60c:C13 71877e2:C13 93d1e9a:C11 25eedce:C06 44bf9a6:C11 ecbebbd:C03 9d02cb2:C11; do
   h=${c%%:*}; P=${c##*:}
   echo "== revert $h -> $P"
   /verif/tools/scratch_check.sh rv$h /verif/regress/reverts/$h.diff HEAD $P 2>&1 | grep -E "key=|quick:|error|BUILD" | cut -c1-260
